@@ -22,6 +22,7 @@ import (
 	"github.com/AliceO2Group/Control/core/environment"
 	"github.com/AliceO2Group/Control/core/integration"
 	"github.com/AliceO2Group/Control/core/the"
+	"github.com/spf13/viper"
 
 	"verif/harness/internal/simcore"
 )
@@ -46,6 +47,8 @@ type simDriver struct {
 	mu  sync.Mutex
 	// arguments of the last START / STOP transition command sent to a task
 	pushed *Snap
+	// scripted outcome of the hook tasks of the running operation (hook id -> exit code)
+	hookExit map[int]int
 }
 
 func newSimDriver(workDir string) (*simDriver, error) {
@@ -65,6 +68,17 @@ func newSimDriver(workDir string) (*simDriver, error) {
 	d := &simDriver{s: s, rec: rec, cap: &capWriter{rec: rec}}
 	the.VerifC08SetEventWriter(topic.Environment, d.cap)
 	the.VerifC08SetEventWriter(topic.Run, d.cap)
+	s.Beh.Hook = func(taskId, className string) int {
+		// the termination report follows the acknowledgement of the trigger command; give the
+		// collector of runTasksAsHooks the time to be receiving (NotifyEvent does not wait for it)
+		time.Sleep(3 * time.Millisecond)
+		if id, ok := hookIdOfClass(className); ok {
+			d.mu.Lock()
+			defer d.mu.Unlock()
+			return d.hookExit[id]
+		}
+		return 0
+	}
 	// hook tasks triggered: one record per trigger command, made when the core sends it
 	s.OnMsg = func(m *simcore.MsgRecord) {
 		if m.Name == "MesosCommand_Transition" && (m.Event == "START" || m.Event == "STOP") {
@@ -107,10 +121,14 @@ func (d *simDriver) workflowYAML(name string, n int, in Input) string {
 	for _, h := range in.Hooks {
 		switch h.Kind {
 		case "call":
-			fmt.Fprintf(&b, "  - name: \"c%d\"\n    call:\n      func: verif.Probe(%d)\n      trigger: %s\n      await: %s\n      timeout: 5s\n      critical: %v\n",
-				h.Id, h.Id, h.Trig, h.Await, h.Crit)
+			await := ""
+			if h.Await != "" { // otherwise: as users mostly write hooks, without an await line
+				await = fmt.Sprintf("      await: %s\n", h.Await)
+			}
+			fmt.Fprintf(&b, "  - name: \"c%d\"\n    call:\n      func: verif.Probe(%d)\n      trigger: %s\n%s      timeout: 5s\n      critical: %v\n",
+				h.Id, h.Id, h.Trig, await, h.Crit)
 		case "task":
-			fmt.Fprintf(&b, "  - name: \"%s\"\n    task:\n      load: c%dk%d\n      trigger: %s\n      timeout: 5s\n      critical: %v\n",
+			fmt.Fprintf(&b, "  - name: \"%s\"\n    task:\n      load: c%dk%d\n      trigger: %s\n      timeout: 2s\n      critical: %v\n",
 				taskName(h.Id), n, h.Id, h.Trig, h.Crit)
 		}
 	}
@@ -171,6 +189,7 @@ func (d *simDriver) run(in Input) (obs Obs) {
 		return
 	}
 	d.settle(id.String(), "CONFIGURED")
+	obs.Awaits = awaitsOf(env.Workflow())
 	rec.Reset()
 	d.cap.setEnv(id.String())
 	for i := range in.Ops {
@@ -182,9 +201,24 @@ func (d *simDriver) run(in Input) (obs Obs) {
 		for _, h := range op.Slow {
 			rec.SetSlow(h, i, slowDelay)
 		}
+		if op.Maint {
+			d.maintainClassCache()
+		}
 		rec.add(Rec{Kind: "O"})
 		d.mu.Lock()
 		d.pushed = nil
+		d.hookExit = map[int]int{}
+		for k, v := range op.TaskOut {
+			hid, _ := strconv.Atoi(k)
+			switch {
+			case v == "exit":
+				d.hookExit[hid] = 3
+			default:
+				if code, _, _, _, ok := parseTermX(v); ok {
+					d.hookExit[hid] = code
+				}
+			}
+		}
 		d.mu.Unlock()
 		var opErr error
 		done := make(chan struct{})
@@ -266,6 +300,37 @@ func mergeTriggers(recs []Rec, hooks []Hook) []Rec {
 		out = append(out, r)
 	}
 	return out
+}
+
+// maintainClassCache: what happens to the task-class cache while an environment lives - another
+// workflow is loaded (RefreshClasses -> removeInactiveClasses) at a time when every cache entry is
+// older than taskClassCacheTTL.  Classes of rostered tasks must survive it.
+func (d *simDriver) maintainClassCache() {
+	old := viper.Get("taskClassCacheTTL")
+	viper.Set("taskClassCacheTTL", time.Nanosecond)
+	defer viper.Set("taskClassCacheTTL", old)
+	d.n++
+	name := fmt.Sprintf("maint%d", d.n)
+	cls := fmt.Sprintf("c%dt0", d.n)
+	os.WriteFile(filepath.Join(d.s.RepoDir, "tasks", cls+".yaml"), []byte(fmt.Sprintf(simBasicClass, cls)), 0o644)
+	os.WriteFile(filepath.Join(d.s.RepoDir, "workflows", name+".yaml"),
+		[]byte(fmt.Sprintf("name: %s\ndefaults:\n  deploy_timeout: 2s\nroles:\n  - name: \"t0\"\n    task:\n      load: %s\n      critical: true\n", name, cls)), 0o644)
+	done := make(chan struct{})
+	go func() {
+		defer close(done)
+		for attempt := 0; attempt < 3; attempt++ {
+			id := uid.New()
+			if _, err := d.s.Envman.CreateEnvironment(name, map[string]string{}, false, id, false); err == nil {
+				d.settle(id.String(), "CONFIGURED")
+				d.s.Envman.TeardownEnvironment(id, true)
+				return
+			}
+		}
+	}()
+	select {
+	case <-done:
+	case <-time.After(30 * time.Second):
+	}
 }
 
 // settle waits until the task manager has digested the state announcements of the environment's
